@@ -271,6 +271,8 @@ func (r *rewriter) decide(f *ast.File) {
 					if !tv.IsType() {
 						if _, isConv := r.info.Types[n.Fun]; isConv && r.info.Types[n.Fun].IsType() {
 							// conversion between channel types: fine after rewriting
+						} else if _, isLit := unparen(n.Fun).(*ast.FuncLit); isLit {
+							// a function literal called on the spot: its body is rewritten like all code of the package
 						} else {
 							fail(r.fset, n.Pos(), "call through a function value returning a channel")
 						}
@@ -654,4 +656,14 @@ func (r *rewriter) rewriteSelect(sel *ast.SelectStmt) ast.Stmt {
 	args := append([]ast.Expr{ast.NewIdent(hd)}, caseVars...)
 	sw := &ast.SwitchStmt{Tag: &ast.CallExpr{Fun: mcSel("Select"), Args: args}, Body: &ast.BlockStmt{List: clauses}}
 	return &ast.BlockStmt{List: append(pre, sw)}
+}
+
+func unparen(e ast.Expr) ast.Expr {
+	for {
+		p, ok := e.(*ast.ParenExpr)
+		if !ok {
+			return e
+		}
+		e = p.X
+	}
 }
